@@ -167,26 +167,40 @@ func init() {
 		}
 		return ec.e().inL(scalar(args[0]), name)
 	}
-	stdModels["(*sync.Mutex).Lock"] = lockModel(true)
-	stdModels["(*sync.Mutex).Unlock"] = lockModel(false)
-	stdModels["(*sync.RWMutex).Lock"] = lockModel(true)
-	stdModels["(*sync.RWMutex).Unlock"] = lockModel(false)
-	stdModels["(*sync.RWMutex).RLock"] = lockModel(true)
-	stdModels["(*sync.RWMutex).RUnlock"] = lockModel(false)
+	stdModels["(*sync.Mutex).Lock"] = lockModel(true, false)
+	stdModels["(*sync.Mutex).Unlock"] = lockModel(false, false)
+	stdModels["(*sync.RWMutex).Lock"] = lockModel(true, false)
+	stdModels["(*sync.RWMutex).Unlock"] = lockModel(false, false)
+	stdModels["(*sync.RWMutex).RLock"] = lockModel(true, true)
+	stdModels["(*sync.RWMutex).RUnlock"] = lockModel(false, true)
 }
 
-func lockModel(acquire bool) stdModel {
+// lockModel: ghost lock state per mutex expression - "lock:" exclusive, "rlock:" shared (sync.RWMutex.RLock).
+func lockModel(acquire, shared bool) stdModel {
 	return func(ec *evalCtx, call *ast.CallExpr, recv Value, args []Value) Value {
-		key := "lock:" + exprString(call.Fun.(*ast.SelectorExpr).X)
-		held, _ := ec.st.ghost[key].(*Term)
-		if held == nil {
-			held = False
+		name := exprString(call.Fun.(*ast.SelectorExpr).X)
+		get := func(k string) *Term {
+			if v, ok := ec.st.ghost[k+name].(*Term); ok {
+				return v
+			}
+			return False
+		}
+		ex, sh := get("lock:"), get("rlock:")
+		key := "lock:" + name
+		cur := ex
+		if shared {
+			key, cur = "rlock:"+name, sh
 		}
 		if acquire {
-			ec.oblige("lock", Not(held), call.Pos(), "lock acquired twice: "+key)
+			// acquiring while this goroutine holds the lock exclusively (or, for Lock, in any way) deadlocks
+			if shared {
+				ec.oblige("lock", Not(ex), call.Pos(), "read lock acquired while the write lock is held: "+name)
+			} else {
+				ec.oblige("lock", And(Not(ex), Not(sh)), call.Pos(), "lock acquired twice: "+name)
+			}
 			ec.st.ghost[key] = True
 		} else {
-			ec.oblige("lock", held, call.Pos(), "unlock of a lock not held: "+key)
+			ec.oblige("lock", cur, call.Pos(), "unlock of a lock not held: "+key)
 			ec.st.ghost[key] = False
 		}
 		return nil
